@@ -352,6 +352,11 @@ def c20_target(spec):
                 continue
             lg.log(lvl, 'rec %d %d %s', th, i, pad)
 
+    if spec.get('silence_first'):
+        # a child that says nothing for a long while (start-up work, a long computation) before it logs
+        if spec.get('hello_first'):
+            lg.warning('rec %d %d %s', 9, 0, 'hello')
+        time.sleep(spec['silence_first'])
     nthreads = spec.get('threads', 1)
     if nthreads > 1:
         per = n // nthreads
